@@ -13,6 +13,7 @@ verus! {
 
 // paths the extracted bodies name through `crate::` (T8)
 pub mod buffer { pub use crate::real::{Block, Token, Style}; }
+pub use crate::real::disambiguate_short;
 
 /// completion bookkeeping (src/complete_gen.rs): opaque; the extracted code only moves it around (T8)
 #[cfg(feature = "autocomplete")]
@@ -30,6 +31,12 @@ pub mod prelude {
     #[verifier::external_type_specification]
     #[verifier::external_body]
     pub struct ExOsString(OsString);
+
+    #[verifier::external_type_specification]
+    #[verifier::external_body]
+    pub struct ExOsStr(std::ffi::OsStr);
+
+    pub assume_specification[ <OsString as std::ops::Deref>::deref ](s: &OsString) -> (r: &std::ffi::OsStr);
 
     /// A-std-peq: result of `PartialEq::eq` on values of type T (uninterpreted; pinned down for `char` below,
     /// and by vstd's PartialEqSpec for `&str`)
@@ -99,6 +106,57 @@ pub mod prelude {
             ensures r == *self
         { unimplemented!() }
     }
+
+    /// T8b: stand-in for `Box<dyn ExactSizeIterator<Item = OsString> + 'a>` (the raw argument source of `Args`); Verus cannot
+    /// read `dyn` types with super-traits. The stand-in is an opaque value with one assumed operation: `next` pops the head of
+    /// the (ghost) sequence of arguments still to come.
+    #[verifier::external_body]
+    pub struct ArgsItems<'a> { _opaque: std::marker::PhantomData<&'a ()> }
+    impl<'a> ArgsItems<'a> {
+        pub uninterp spec fn rest(&self) -> Seq<OsString>;
+        #[verifier::external_body]
+        pub fn next(&mut self) -> (r: Option<OsString>)
+            ensures
+                old(self).rest().len() == 0 ==> r is None && final(self).rest() == old(self).rest(),
+                old(self).rest().len() > 0 ==> r == Some(old(self).rest()[0]) && final(self).rest() == old(self).rest().subrange(1, old(self).rest().len() as int),
+        { unimplemented!() }
+    }
+
+    pub assume_specification<T, A: std::alloc::Allocator>[ <Rc<[T], A> as From<Vec<T, A>>>::from ](v: Vec<T, A>) -> (r: Rc<[T], A>)
+        ensures r@ == v@;
+
+    /// A-alloc: a Vec of a non-zero-sized element type cannot hold usize::MAX elements (allocations are bounded by isize::MAX bytes)
+    #[verifier::external_body]
+    pub proof fn axiom_arg_vec_len(v: Vec<super::real::Arg>)
+        ensures v.len() < usize::MAX,
+    {}
+
+    /// T5-style shim for `Iterator::enumerate` on the stand-in (std semantics assumed: pairs every element with its index)
+    pub struct ArgsItemsEnum<'a> { pub it: ArgsItems<'a>, pub ix: usize }
+    impl<'a> ArgsItems<'a> {
+        #[verifier::external_body]
+        pub fn enumerate(self) -> (r: ArgsItemsEnum<'a>)
+            ensures r.it == self, r.ix == 0,
+        { unimplemented!() }
+    }
+    impl<'a> ArgsItemsEnum<'a> {
+        pub open spec fn rest(&self) -> Seq<OsString> { self.it.rest() }
+        #[verifier::external_body]
+        pub fn next(&mut self) -> (r: Option<(usize, OsString)>)
+            ensures
+                old(self).it.rest().len() == 0 ==> r is None && *final(self) == *old(self),
+                old(self).it.rest().len() > 0 ==> r == Some((old(self).ix, old(self).it.rest()[0])) && final(self).ix == old(self).ix + 1
+                    && final(self).it.rest() == old(self).it.rest().subrange(1, old(self).it.rest().len() as int),
+        { unimplemented!() }
+    }
+
+    /// A-std-oseq: `OsString == &str` is a deterministic function of its arguments
+    #[verifier::external_body]
+    pub proof fn axiom_os_eq_ref_obeys()
+        ensures <OsString as PartialEqSpec<&'static str>>::obeys_eq_spec(),
+    {}
+    /// the raw argument is the literal `--`
+    pub open spec fn is_dd(os: OsString) -> bool { PartialEqSpec::<&'static str>::eq_spec(&os, &"--") }
 
     /// bpaf::meta_youmean::Suggestion: opaque (T8)
     #[verifier::external_body]
@@ -304,6 +362,19 @@ pub mod spec {
     {
         let xs = meta_children(*m);
         if n <= 0 || n > xs.len() { Seq::empty() } else { leaves_upto(m, n - 1) + leaves(&xs[n - 1]) }
+    }
+
+    /// C09, tokenizer rule: "Everything after the first `--` is positional data ... the separator itself is never delivered as a
+    /// value": up to the first `--` nothing is a PosWord and everything is unconsumed; the first PosWord is the literal `--` and is
+    /// pre-consumed; every later item is a PosWord and unconsumed
+    pub open spec fn dd_rule(items: Seq<Arg>, ledger: Seq<ItemState>) -> bool {
+        &&& ledger.len() == items.len()
+        &&& forall|j: int| 0 <= j < items.len() && #[trigger] first_posword(items, j) ==> is_dd(items[j]->PosWord_0) && ledger[j] is Parsed
+        &&& forall|j: int| 0 <= j < items.len() && !#[trigger] first_posword(items, j) ==> ledger[j] is Unparsed
+        &&& forall|i: int, j: int| #![trigger items[i], items[j]] 0 <= i < j < items.len() && items[i] is PosWord ==> items[j] is PosWord
+    }
+    pub open spec fn first_posword(items: Seq<Arg>, j: int) -> bool {
+        0 <= j < items.len() && items[j] is PosWord && forall|i: int| 0 <= i < j ==> !(#[trigger] items[i] is PosWord)
     }
 
     /// both ledgers still have item j
@@ -1999,6 +2070,85 @@ impl State {
 //@@ end
 
 
+
+
+// ---- tokenizer driver (C09)
+//@@ type src/args.rs | struct Args
+//@@ unit args.Args tags=
+//@@ subst `Box<dyn ExactSizeIterator<Item = OsString> + 'a>` => `ArgsItems<'a>`
+//@@ end
+
+//@@ type src/arg.rs | enum ArgType
+//@@ unit arg.ArgType tags= derive_eq
+//@@ end
+
+/// assumed (byte-level code over OsStr; bounded by Kani K03): an attached value is always an ArgWord; a name before `=` of a
+/// short option is not empty
+#[verifier::external_body]
+pub fn split_os_argument(input: &std::ffi::OsStr) -> (r: Option<(ArgType, String, Option<Arg>)>)
+    ensures
+        r matches Some(t) ==> (t.2 matches Some(a) ==> a is ArgWord),
+        r matches Some(t) ==> (t.0 is Short && t.2 is Some ==> t.1@.len() > 0),
+{ unimplemented!() }
+
+/// assumed (String/char_indices code; K02 infeasible): appends at least one item, never a PosWord, keeps what was there
+#[verifier::external_body]
+pub fn disambiguate_short(os: OsString, short: String, short_flags: &[char], short_args: &[char], items: &mut Vec<Arg>) -> (r: Option<Message>)
+    ensures
+        final(items).len() > old(items).len(),
+        forall|i: int| 0 <= i < old(items).len() ==> #[trigger] final(items)[i] == old(items)[i],
+        forall|i: int| old(items).len() <= i < final(items).len() ==> !(#[trigger] final(items)[i] is PosWord),
+{ unimplemented!() }
+
+//@@ fn src/args.rs | mod inner | impl State | fn construct
+//@@ unit args.State.construct tags=C09,C10,C03,C04 only=default loops=1 desugar_for=1
+//@@ ret r
+//@@ spec
+        requires *old(err) is None,
+        ensures
+            r.wf() && r.scope.start == 0 && r.scope.end == r.items.len(), // #whole_line_in_scope
+            *final(err) is None ==> dd_rule(r.items@, r.item_state@), // #only_the_first_double_dash_separates_and_is_pre_consumed
+//@@ loop 1
+            invariant_except_break
+                *err is None,
+            invariant
+                <OsString as PartialEqSpec<&'static str>>::obeys_eq_spec(),
+                pos_only == (double_dash_marker is Some),
+                double_dash_marker matches Some(m) ==> m < items.len() && first_posword(items@, m as int) && is_dd(items[m as int]->PosWord_0) // #marker_is_the_item_index_of_the_first_double_dash
+                    && forall|j: int| m <= j < items.len() ==> #[trigger] items[j] is PosWord,
+                double_dash_marker is None ==> forall|j: int| 0 <= j < items.len() ==> !(#[trigger] items[j] is PosWord),
+            decreases verif_it_1.rest().len(),
+//@@ preloop 1
+proof { axiom_os_eq_ref_obeys(); }
+//@@ insert after 1 `let mut double_dash_marker`
+: Option<usize>
+//@@ insert before 1 `let mut path = Vec::new();`
+proof {
+    axiom_arg_vec_len(items);
+    let n = items.len() as int;
+    if double_dash_marker is Some {
+        let m = double_dash_marker->Some_0 as int;
+        let fresh = Seq::new(items.len() as nat, |i: int| ItemState::Unparsed);
+        assert(item_state@ =~= fresh.update(m, ItemState::Parsed));
+        lemma_count_all_present(fresh, 0, n);
+    } else {
+        lemma_count_all_present(item_state@, 0, n);
+    }
+}
+let ghost g_items = items@;
+//@@ insert before 1 `State {`
+proof {
+    assert forall|j: int| 0 <= j < g_items.len() && first_posword(g_items, j) implies double_dash_marker == Some(j as usize) by {
+        if double_dash_marker is Some {
+            let m = double_dash_marker->Some_0 as int;
+            if j < m { assert(g_items[j] is PosWord); } 
+            if m < j { assert(g_items[m] is PosWord); }
+        }
+    }
+}
+//@@ insert after 1 `let mut items`
+: Vec<Arg>
+//@@ end
 
 // ---- short names for cluster disambiguation (C02)
 //@@ fn src/meta.rs | impl Meta | fn collect_shorts
